@@ -39,7 +39,13 @@ EXPLANATION = (
 )
 RULE_TEXT = ("one obligation per (rule, construct): guards as path conditions in clause form (R1), ordering by dominance and "
              "reachability inside the loop body (R2), exhaustive path enumeration with loops unrolled once (R3), reaching definitions "
-             "and call-graph resolution of the apply chain (R4), role typing (R5).  Non-trivial = needed one of these arguments.")
+             "and call-graph resolution of the apply chain (R4), role typing (R5).  Non-trivial = needed one of these arguments.  "
+             "Constructs are found by role, not by spelling: R1 reads guards after inlining single-definition locals and one-expression "
+             "private helpers; R2 follows local aliases of the value list, chained assignments, `x = x + 1`, growth inside a private helper "
+             "and ranges filled by a loop or a comprehension; R3 takes the two branches of the membership test as control-flow regions "
+             "(if/else, `not in` + continue, key held in a local, tuple assignment of the index lists, `+=`); R4 accepts any operator "
+             "part computed from the entry's operator inside the ranges loop; R6 classifies every `return <var>` by its path condition "
+             "and accepts an identity proof in the guard, in a flag loop or in a private helper.")
 ASSUMPTIONS = [
     "numpy: np.unique, np.shape, np.prod have their documented meaning; list.extend/append grow a list in place.",
     "Edge dictionaries handed to _group_edges do not themselves contain the keys source_idx (beyond the popped one) / target_idx.",
@@ -1286,10 +1292,10 @@ def r6_indexing_dropped_only_for_identity(ctx, rid):
 
     def type_test(t):
         """'tuple' / 'str' / 'list' when t tests the type of the index argument"""
-        if isinstance(t, ast.Compare) and len(t.ops) == 1 and isinstance(t.ops[0], (ast.Is, ast.Eq)) and isinstance(t.left, ast.Call) \
+        if isinstance(t, ast.Compare) and len(t.ops) == 1 and isinstance(t.ops[0], (ast.Is, ast.Eq, ast.IsNot, ast.NotEq)) and isinstance(t.left, ast.Call) \
                 and call_name(t.left) == "type" and len(t.left.args) == 1 and isinstance(t.left.args[0], ast.Name) and t.left.args[0].id == pi \
                 and isinstance(t.comparators[0], ast.Name):
-            return t.comparators[0].id
+            return t.comparators[0].id if isinstance(t.ops[0], (ast.Is, ast.Eq)) else "not " + t.comparators[0].id
         if isinstance(t, ast.Call) and call_name(t) == "isinstance" and len(t.args) == 2 and isinstance(t.args[0], ast.Name) and t.args[0].id == pi \
                 and isinstance(t.args[1], ast.Name):
             return t.args[1].id
